@@ -53,7 +53,10 @@ def pinned_layout(identity, shape, mode="zeros", sets=None):
     pf, pd = pinned.load_tables()
     if identity not in pd:
         return None
-    occs, nbits = R.layout(identity, R.Valuation(shape, mode, sets), pdict=pd[identity], fields=pf)
+    try:
+        occs, nbits = R.layout(identity, R.Valuation(shape, mode, sets), pdict=pd[identity], fields=pf)
+    except R.TooLong:
+        return None
     return occs, nbits
 
 
@@ -417,7 +420,7 @@ def _decode_items(identity, n, blocks, width):
     msg = _parse(payload)
     seqs = []
     for it in items:
-        assert sum(o.width for o in it) == width, (identity, width)
+        core.require(sum(o.width for o in it) == width, f"sibling harness inconsistent: {(identity, width)}")
         seqs.append([getattr(msg, o.name) for o in it])
     return seqs
 
